@@ -271,7 +271,10 @@ def escape_sinks(ctx: Context, fn: FunctionInfo, param: str, depth: int,
             # mutator on non-fresh receiver
             f = a.func
             argtags = EMPTY
-            for x in list(a.args) + [k.value for k in a.keywords]:
+            cargs = list(a.args) + [k.value for k in a.keywords]
+            if isinstance(f, ast.Attribute) and f.attr == "setdefault":
+                cargs = cargs[1:]  # the key does not alias
+            for x in cargs:
                 argtags |= tf.tags(x, st)
             if TAG not in argtags:
                 continue
